@@ -48,7 +48,11 @@ func main() {
 		mk("ondemand-held-vs-shutdown", "runOnDemand path: shutdown races with requests being put on hold",
 			pmlib.ConcSpec{Base: od, Name: "p", Reader: true, Describe: true, CloseAtOnce: true}, 2, 3),
 	)
-	for _, s := range scn[len(scn)-3:] {
+	stConf := pmlib.LoadConf("paths:\n  p:\n    source: rpiCamera\n    sourceOnDemand: yes\n    sourceOnDemandStartTimeout: 10s\n    sourceOnDemandCloseAfter: 10s\n")
+	scn = append(scn, &vexplore.Scenario{Name: "ondemand-static-source-fails", Desc: "on-demand static source that serves a reader and a describe request and then FAILS (its own Run reports not-ready and returns an error, as the real protocol clients do); a late reader; shutdown",
+		Body: pmlib.DemandBody(stConf, pmlib.DemandSpec{Static: true, Blocking: true, Fails: true, Source: true, SourceGoes: true, Describe: true, Late: true}), Check: pmlib.CheckCompletes,
+		QuickBound: 1, ThoroughBound: 2, Horizon: 30000, Bg: bg, BgTimers: []string{"staticsources/handler.go"}})
+	for _, s := range scn[len(scn)-4:] {
 		s.NoRacePass = true // start timeouts are real time there
 	}
 	extra := func(r *vcommon.Run) (int64, int64, int64, string) {
